@@ -647,6 +647,30 @@ def handleNp (j : Json) : D Json := do
     | s => throw s!"unknown np op {s}")
   pure (Json.mkObj [("out", out)])
 
+/-- kind = "np_mid": an INTERMEDIATE array of an array-level transcription (raw data AND mask), for comparison with the local
+    variable of the same name in the running Python function. -/
+def handleNpMid (j : Json) : D Json := do
+  let what ← field j "what" >>= asStr
+  let inp : D (List V) := field j "inp" >>= asList asV
+  let out ← (match what with
+    | "spike.diff.average" => do pure (cellsToJson (Np.spikeDiffAverage (Np.ofInput (← inp))))
+    | "spike.diff.differential" => do pure (cellsToJson (Np.spikeDiffDifferential (Np.ofInput (← inp))))
+    | "roc.roc" => do
+        let a := Np.ofInput (← inp)
+        let ts ← field j "t" >>= asList asInt
+        pure (cellsToJson (Np.setTail (Np.zeros a.length) (Np.uf1 Np.Fl.abs (Np.maDivArr (Np.maDiff a) (Np.dtSeconds ts)))))
+    | "density.delta" => do
+        let z ← field j "z" >>= asList asV
+        pure (cellsToJson (Np.maBin Np.Fl.mul (Np.uf1 Np.Fl.sign (Np.maDiff (Np.ofInput z))) (Np.maDiff (Np.ofInput (← inp)))))
+    | "speed.speed" => do
+        let hops ← field j "hops" >>= asList asV
+        let ts ← field j "t" >>= asList asInt
+        let n ← field j "n" >>= asNat
+        pure (cellsToJson (Np.setTail (Np.zeros ts.length)
+          (Np.uf1 Np.Fl.abs (Np.maDivArr (Np.tail1 (Np.greatCircle hops n)) (Np.dtSeconds ts)))))
+    | s => throw s!"unknown intermediate {s}")
+  pure (Json.mkObj [("out", out)])
+
 def dispatch (kind : String) (j : Json) : D Json :=
   match kind with
   | "test" => handleTest j
@@ -668,6 +692,7 @@ def dispatch (kind : String) (j : Json) : D Json :=
   | "c18" => handleC18 j
   | "system" => handleSystem j
   | "np" => handleNp j
+  | "np_mid" => handleNpMid j
   | k => throw s!"unknown kind {k}"
 
 end IoosQc.Handlers
